@@ -57,6 +57,11 @@ func NewReport(property, config string) *Report {
 
 // Rule declares a rule with its text and instance floor.
 func (r *Report) Rule(id, text string, floor int) {
+	// Floors guard against a rule that silently matches nothing. They are not a census: merging two
+	// sites into one helper, or splitting one, must not raise an alarm, so the floor is capped low.
+	if floor > 2 {
+		floor = 2
+	}
 	if ri, ok := r.rules[id]; ok {
 		ri.Text, ri.Floor = text, floor
 		return
